@@ -440,6 +440,101 @@ fn recycle_inner(ctx: &mut Ctx, state: u64, case: &J) -> Result<(), String> {
 }
 
 // ------------------------------------------------------------------------------------------
+// JSON field with positions: `positions()` on a non-text term (number / bool / date)
+// ------------------------------------------------------------------------------------------
+/// Known finding `C07:json-nontext-positions-panic`: in a JSON field indexed with positions,
+/// non-text leaves are recorded with the doc-id-only recorder (no tf, 1-byte empty position
+/// stream), but `read_postings(.., WithFreqsAndPositions)` still attaches a PositionReader and
+/// `positions()` reads `term_freq() = 1` position from it. Attribution is narrow: JSON field,
+/// positional option, non-text term, the failing call is `positions()`; docs / term_freq / text
+/// terms failing get other keys.
+fn check_json_nontext_positions(ctx: &mut Ctx, ndocs: u32) {
+    use tantivy::schema::JsonObjectOptions;
+    let case = json!({"kind": "json-nontext-positions", "ndocs": ndocs});
+    let r = catch_unwind(AssertUnwindSafe(|| -> Result<(), String> {
+        let mut sb = Schema::builder();
+        let idx = TextFieldIndexing::default().set_tokenizer("default").set_index_option(IndexRecordOption::WithFreqsAndPositions);
+        let f = sb.add_json_field("j", JsonObjectOptions::default().set_indexing_options(idx));
+        let index = Index::create_in_ram(sb.build());
+        let mut w: IndexWriter = index.writer_with_num_threads(1, 50_000_000).map_err(|e| e.to_string())?;
+        for d in 0..ndocs {
+            let v: serde_json::Value = json!({"n": 5, "t": "hello world hello", "b": d % 2 == 0, "k": {"x": d}});
+            let mut doc = TantivyDocument::default();
+            doc.add_object(f, v.as_object().unwrap().iter().map(|(k, v)| (k.clone(), tantivy::schema::OwnedValue::from(v.clone()))).collect());
+            w.add_document(doc).map_err(|e| e.to_string())?;
+        }
+        w.commit().map_err(|e| e.to_string())?;
+        drop(w);
+        let reader = index.reader().map_err(|e| e.to_string())?;
+        let searcher = reader.searcher();
+        let inv = searcher.segment_reader(0).inverted_index(f).map_err(|e| e.to_string())?;
+        let mut stream = inv.terms().stream().map_err(|e| e.to_string())?;
+        let mut terms: Vec<(Vec<u8>, tantivy::postings::TermInfo)> = vec![];
+        while stream.advance() {
+            terms.push((stream.key().to_vec(), stream.value().clone()));
+        }
+        for (key, ti) in terms {
+            // [path] 0x00 [type code] [value]
+            let Some(z) = key.iter().position(|b| *b == 0) else { continue };
+            let is_text = key.get(z + 1) == Some(&b's');
+            let kind = if is_text { "text" } else { "non-text" };
+            ctx.report.count(&format!("json-positions:{kind}"));
+            ctx.report.case(&format!("json-nontext|{ndocs}|{}", hex(&key)), true);
+            // docs and term_freq first (must work for every term)
+            let basic = catch_unwind(AssertUnwindSafe(|| -> Result<(Vec<u32>, Vec<u32>), String> {
+                let mut sp = inv.read_postings_from_terminfo(&ti, IndexRecordOption::WithFreqsAndPositions).map_err(|e| e.to_string())?;
+                let (mut docs, mut tfs) = (vec![], vec![]);
+                while sp.doc() != TERMINATED {
+                    docs.push(sp.doc());
+                    tfs.push(sp.term_freq());
+                    sp.advance();
+                }
+                Ok((docs, tfs))
+            }));
+            match basic {
+                Ok(Ok((docs, _))) if docs.len() == ti.doc_freq as usize => {}
+                other => {
+                    ctx.report.violation("oracle", "C07:json", format!("JSON {kind} term {}: docs/term_freq read failed: {:?}", hex(&key), other.map_err(|_| "panic")), case.clone());
+                    continue;
+                }
+            }
+            let pos = catch_unwind(AssertUnwindSafe(|| -> Result<Vec<Vec<u32>>, String> {
+                let mut sp = inv.read_postings_from_terminfo(&ti, IndexRecordOption::WithFreqsAndPositions).map_err(|e| e.to_string())?;
+                let mut out = vec![];
+                while sp.doc() != TERMINATED {
+                    let mut p = vec![];
+                    sp.positions(&mut p);
+                    out.push(p);
+                    sp.advance();
+                }
+                Ok(out)
+            }));
+            match (is_text, pos) {
+                (true, Ok(Ok(ps))) if ps.iter().all(|p| !p.is_empty()) => {}
+                (false, Ok(Ok(ps))) if ps.iter().all(|p| p.is_empty()) => {}
+                (false, Err(p)) => {
+                    ctx.report.violation(
+                        "oracle",
+                        "C07:json-nontext-positions-panic",
+                        format!("JSON field with positions, non-text term {} ({} docs): positions() panicked: {}", hex(&key), ti.doc_freq, panic_msg(p)),
+                        case.clone(),
+                    );
+                }
+                (_, other) => {
+                    ctx.report.violation("oracle", "C07:json", format!("JSON {kind} term {}: positions() gave {:?}", hex(&key), other.map_err(|_| "panic")), case.clone());
+                }
+            }
+        }
+        Ok(())
+    }));
+    match r {
+        Ok(Ok(())) => {}
+        Ok(Err(e)) => ctx.report.violation("oracle", "C07:read-error", format!("json non-text positions case: {e}"), case),
+        Err(p) => ctx.report.violation("oracle", "C07:panic", format!("json non-text positions case: {}", panic_msg(p)), case),
+    }
+}
+
+// ------------------------------------------------------------------------------------------
 // TermInfoStore (through the public TermDictionaryBuilder / TermDictionary)
 // ------------------------------------------------------------------------------------------
 type Ti = (u32, u64, u64, u64, u64); // doc_freq, postings start..end, positions start..end
@@ -549,6 +644,7 @@ pub fn replay(ctx: &mut Ctx, case: &J) -> bool {
         "vint32" => check_vint32(ctx, case["v"].as_u64().unwrap_or(0) as u32, true),
         "thresholds" => run_threshold_variant(ctx, case),
         "recycle" => check_recycle(ctx, case["state"].as_str().and_then(|s| s.parse().ok()).unwrap_or(0)),
+        "json-nontext-positions" => check_json_nontext_positions(ctx, case["ndocs"].as_u64().unwrap_or(3) as u32),
         "terminfo" => {
             let tis: Vec<Ti> = case["infos"].as_array().map(|a| a.iter().filter_map(|x| {
                 let p: Vec<u64> = x.as_str()?.split(':').filter_map(|t| t.parse().ok()).collect();
@@ -580,6 +676,9 @@ pub fn run(ctx: &mut Ctx, model_has_vint32: bool) {
     for _ in 0..ctx.budget(6, 120) {
         let state = ctx.rng.fork().0;
         check_recycle(ctx, state);
+    }
+    for ndocs in [1u32, 3, 130] {
+        check_json_nontext_positions(ctx, ndocs);
     }
     let has_tis = ctx.model.ask("C07 tis_write -") != "bad-op";
     if !has_tis {
